@@ -74,7 +74,14 @@ def attach_from_kd_buf_contract(log: ContractLog):
                 log.fail(bad[0], bad[1], {'record': bytes(kd_buf)})
         return True
 
-    if HAVE_ICONTRACT:
+    import inspect
+    try:
+        first = next(iter(inspect.signature(original).parameters))
+    except (TypeError, ValueError, StopIteration):
+        first = None
+    # (icontract binds condition arguments by NAME: when the decoder's parameter is not called kd_buf the plain positional
+    # wrapper is used, so that the monitor itself never raises - the keyword call is judged by the check, not here)
+    if HAVE_ICONTRACT and first == 'kd_buf':
         wrapped = icontract.ensure(from_kd_buf_matches_record, error=AssertionError)(original)
     else:
         wrapped = _post_wrapper(original, from_kd_buf_matches_record)
